@@ -66,6 +66,7 @@ func (c16) Gen(tier string, seed int64, emit func([]Ev)) {
 	if tier == "thorough" {
 		maxLen, nrand = 9, 200000
 	}
+	c16IsSynced(r, emit)
 	// bounded-exhaustive: every stream of length <= maxLen over the alphabet
 	var rec func(prefix []byte)
 	n := 0
@@ -124,6 +125,26 @@ func (c16) Gen(tier string, seed int64, emit func([]Ev)) {
 	}
 }
 
+// c16IsSynced: IsSynced on every AFC value x PIDs around the reserved range x first-byte variants,
+// and on streams shorter than a header.
+func c16IsSynced(r *rand.Rand, emit func([]Ev)) {
+	pids := []int{0, 1, 2, 3, 4, 5, 0xe, 0xf, 0x10, 0x11, 0x100, 0x1ffe, 0x1fff, 0x1004, 0x100f, 0x0104}
+	for _, b0 := range []int{0x47, 0x46, 0x48, 0x00, 0xff} {
+		for _, pid := range pids {
+			for afc := 0; afc < 4; afc++ {
+				hi := r.Intn(8) << 5 // TEI / PUSI / priority bits are irrelevant
+				st := []byte{byte(b0), byte(hi | pid>>8), byte(pid), byte(r.Intn(4)<<6 | afc<<4 | r.Intn(16))}
+				st = append(st, rndBytes(r, r.Intn(6))...)
+				emit([]Ev{{"op": "issynced", "stream": B(st), "reader": c16Readers[r.Intn(len(c16Readers))]}})
+			}
+		}
+	}
+	for n := 0; n < 4; n++ {
+		st := append([]byte{0x47, 0x01, 0x00, 0x10}[:n:n], []byte{}...)
+		emit([]Ev{{"op": "issynced", "stream": B(st), "reader": c16Readers[n%len(c16Readers)]}})
+	}
+}
+
 func (c16) Exec(h []Ev) []Ev {
 	for _, e := range h {
 		s := GB(e["stream"])
@@ -143,6 +164,19 @@ func (c16) Exec(h []Ev) []Ev {
 		default:
 			sp := &slicePeeker{b: s}
 			rd, rest = sp, sp
+		}
+		if GS(e["op"]) == "issynced" {
+			e["panic"] = guard(func() {
+				ok, err := packet.IsSynced(rd)
+				e["ok"], e["err"] = ok, "nil"
+				if err != nil {
+					e["err"] = "other"
+				}
+				left, _ := io.ReadAll(rest)
+				e["rest"] = B(left)
+				e["input_same"] = bytes.Equal(s, keep)
+			})
+			continue
 		}
 		e["panic"] = guard(func() {
 			off, err := packet.Sync(rd)
@@ -164,6 +198,9 @@ func (c16) Exec(h []Ev) []Ev {
 }
 
 func (c16) Class(e Ev) string {
+	if GS(e["op"]) == "issynced" {
+		return fmt.Sprintf("issynced/%v/%s", GBool(e["ok"]), GS(e["err"]))
+	}
 	s := GB(e["stream"])
 	nsync := bytes.Count(s, []byte{0x47})
 	if nsync > 3 {
